@@ -45,13 +45,7 @@ fn verif_fmt_ok(_o: &mut dyn core::fmt::Write, _a: core::fmt::Arguments<'_>) -> 
 
 /// ASCII text of length `len` (content 'a'..): encoded length == character count.
 fn text(len: usize) -> String {
-    let mut s = String::with_capacity(len);
-    let mut i = 0;
-    while i < len {
-        s.push((b'a' + (i % 26) as u8) as char);
-        i += 1;
-    }
-    s
+    "a".repeat(len)
 }
 
 /// Fixed-width field: exactly N bytes = text truncated to N, then NULs.
@@ -119,467 +113,788 @@ fn check_terminated_aligned<const N: usize>(len: usize) {
     core::mem::forget(r);
 }
 
-//@ id: text_fixed_6_0
+//@ id: text_fixed_6_q0
 //@ prop: C11
+//@ tier: quick
 //@ functions: insim_core/src/string/mod.rs binrw_write_codepage_string::<6>
-//@ statement: fixed-width text field of width 6, ASCII text of lengths [0, 1, 2, 3, 4, 5, 6, 7, 8, 9, 10, 11]: the field occupies exactly 6 bytes = the text truncated to 6, then NUL padding
-//@ bounded: text lengths 0..=11 of all 0..=2N+1 enumerated concretely, ASCII content (encoded length == character count); multi-byte / multi-codepage content reaches this logic only through the encoded length
-//@ timeout: 1500
+//@ statement: fixed-width text field of width 6, ASCII text of lengths [0, 1, 5, 6, 7]: the field occupies exactly 6 bytes = the text truncated to 6, then NUL padding
+//@ bounded: text lengths [0, 1, 5, 6, 7] enumerated concretely, ASCII content (encoded length == character count)
+//@ timeout: 1200
 #[kani::proof]
 #[kani::stub(core::fmt::write, verif_fmt_ok)]
-fn c11_text_fixed_6_0() {
-    for len in [0, 1, 2, 3, 4, 5, 6, 7, 8, 9, 10, 11] {
+fn c11_text_fixed_6_q0() {
+    for len in [0, 1, 5, 6, 7] {
         check_fixed::<6>(len, false);
     }
 }
 
-//@ id: text_fixed_6_1
+//@ id: text_fixed_8_q0
 //@ prop: C11
-//@ functions: insim_core/src/string/mod.rs binrw_write_codepage_string::<6>
-//@ statement: fixed-width text field of width 6, ASCII text of lengths [12, 13]: the field occupies exactly 6 bytes = the text truncated to 6, then NUL padding
-//@ bounded: text lengths 12..=13 of all 0..=2N+1 enumerated concretely, ASCII content (encoded length == character count); multi-byte / multi-codepage content reaches this logic only through the encoded length
-//@ timeout: 1500
+//@ tier: quick
+//@ functions: insim_core/src/string/mod.rs binrw_write_codepage_string::<8>
+//@ statement: fixed-width text field of width 8, ASCII text of lengths [0, 1, 7, 8, 9]: the field occupies exactly 8 bytes = the text truncated to 8, then NUL padding
+//@ bounded: text lengths [0, 1, 7, 8, 9] enumerated concretely, ASCII content (encoded length == character count)
+//@ timeout: 1200
 #[kani::proof]
 #[kani::stub(core::fmt::write, verif_fmt_ok)]
-fn c11_text_fixed_6_1() {
-    for len in [12, 13] {
+fn c11_text_fixed_8_q0() {
+    for len in [0, 1, 7, 8, 9] {
+        check_fixed::<8>(len, false);
+    }
+}
+
+//@ id: text_fixed_16_q0
+//@ prop: C11
+//@ tier: quick
+//@ functions: insim_core/src/string/mod.rs binrw_write_codepage_string::<16>
+//@ statement: fixed-width text field of width 16, ASCII text of lengths [0, 1, 15, 16, 17]: the field occupies exactly 16 bytes = the text truncated to 16, then NUL padding (also in raw mode, as used for the ISI admin password)
+//@ bounded: text lengths [0, 1, 15, 16, 17] enumerated concretely, ASCII content (encoded length == character count)
+//@ timeout: 1200
+#[kani::proof]
+#[kani::stub(core::fmt::write, verif_fmt_ok)]
+fn c11_text_fixed_16_q0() {
+    for len in [0, 1, 15, 16, 17] {
+        check_fixed::<16>(len, false);
+        check_fixed::<16>(len, true);
+    }
+}
+
+//@ id: text_fixed_24_q0
+//@ prop: C11
+//@ tier: quick
+//@ functions: insim_core/src/string/mod.rs binrw_write_codepage_string::<24>
+//@ statement: fixed-width text field of width 24, ASCII text of lengths [0, 1, 23, 24, 25]: the field occupies exactly 24 bytes = the text truncated to 24, then NUL padding
+//@ bounded: text lengths [0, 1, 23, 24, 25] enumerated concretely, ASCII content (encoded length == character count)
+//@ timeout: 1200
+#[kani::proof]
+#[kani::stub(core::fmt::write, verif_fmt_ok)]
+fn c11_text_fixed_24_q0() {
+    for len in [0, 1, 23, 24, 25] {
+        check_fixed::<24>(len, false);
+    }
+}
+
+//@ id: text_fixed_32_q0
+//@ prop: C11
+//@ tier: quick
+//@ functions: insim_core/src/string/mod.rs binrw_write_codepage_string::<32>
+//@ statement: fixed-width text field of width 32, ASCII text of lengths [0, 1, 31, 32, 33]: the field occupies exactly 32 bytes = the text truncated to 32, then NUL padding
+//@ bounded: text lengths [0, 1, 31, 32, 33] enumerated concretely, ASCII content (encoded length == character count)
+//@ timeout: 1200
+#[kani::proof]
+#[kani::stub(core::fmt::write, verif_fmt_ok)]
+fn c11_text_fixed_32_q0() {
+    for len in [0, 1, 31, 32, 33] {
+        check_fixed::<32>(len, false);
+    }
+}
+
+//@ id: text_fixed_8_all0
+//@ prop: C11
+//@ tier: quick
+//@ functions: insim_core/src/string/mod.rs binrw_write_codepage_string::<8>
+//@ statement: fixed-width text field of width 8, ASCII text of lengths [2, 3, 4, 5, 6]: the field occupies exactly 8 bytes = the text truncated to 8, then NUL padding
+//@ bounded: text lengths [2, 3, 4, 5, 6] enumerated concretely, ASCII content (encoded length == character count)
+//@ timeout: 1200
+#[kani::proof]
+#[kani::stub(core::fmt::write, verif_fmt_ok)]
+fn c11_text_fixed_8_all0() {
+    for len in [2, 3, 4, 5, 6] {
+        check_fixed::<8>(len, false);
+    }
+}
+
+//@ id: text_fixed_8_all1
+//@ prop: C11
+//@ tier: quick
+//@ functions: insim_core/src/string/mod.rs binrw_write_codepage_string::<8>
+//@ statement: fixed-width text field of width 8, ASCII text of lengths [10, 11, 12, 13, 14]: the field occupies exactly 8 bytes = the text truncated to 8, then NUL padding
+//@ bounded: text lengths [10, 11, 12, 13, 14] enumerated concretely, ASCII content (encoded length == character count)
+//@ timeout: 1200
+#[kani::proof]
+#[kani::stub(core::fmt::write, verif_fmt_ok)]
+fn c11_text_fixed_8_all1() {
+    for len in [10, 11, 12, 13, 14] {
+        check_fixed::<8>(len, false);
+    }
+}
+
+//@ id: text_fixed_8_all2
+//@ prop: C11
+//@ tier: quick
+//@ functions: insim_core/src/string/mod.rs binrw_write_codepage_string::<8>
+//@ statement: fixed-width text field of width 8, ASCII text of lengths [15, 16, 17]: the field occupies exactly 8 bytes = the text truncated to 8, then NUL padding
+//@ bounded: text lengths [15, 16, 17] enumerated concretely, ASCII content (encoded length == character count)
+//@ timeout: 1200
+#[kani::proof]
+#[kani::stub(core::fmt::write, verif_fmt_ok)]
+fn c11_text_fixed_8_all2() {
+    for len in [15, 16, 17] {
+        check_fixed::<8>(len, false);
+    }
+}
+
+//@ id: text_fixed_64_q0
+//@ prop: C11
+//@ tier: quick
+//@ functions: insim_core/src/string/mod.rs binrw_write_codepage_string::<64>
+//@ statement: fixed-width text field of width 64, ASCII text of lengths [0, 1, 2, 3, 4]: the field occupies exactly 64 bytes = the text truncated to 64, then NUL padding
+//@ bounded: text lengths [0, 1, 2, 3, 4] enumerated concretely, ASCII content (encoded length == character count)
+//@ timeout: 1200
+#[kani::proof]
+#[kani::stub(core::fmt::write, verif_fmt_ok)]
+fn c11_text_fixed_64_q0() {
+    for len in [0, 1, 2, 3, 4] {
+        check_fixed::<64>(len, false);
+    }
+}
+
+//@ id: text_fixed_96_q0
+//@ prop: C11
+//@ tier: quick
+//@ functions: insim_core/src/string/mod.rs binrw_write_codepage_string::<96>
+//@ statement: fixed-width text field of width 96, ASCII text of lengths [0, 1, 2, 3, 4]: the field occupies exactly 96 bytes = the text truncated to 96, then NUL padding
+//@ bounded: text lengths [0, 1, 2, 3, 4] enumerated concretely, ASCII content (encoded length == character count)
+//@ timeout: 1200
+#[kani::proof]
+#[kani::stub(core::fmt::write, verif_fmt_ok)]
+fn c11_text_fixed_96_q0() {
+    for len in [0, 1, 2, 3, 4] {
+        check_fixed::<96>(len, false);
+    }
+}
+
+//@ id: text_fixed_128_q0
+//@ prop: C11
+//@ tier: quick
+//@ functions: insim_core/src/string/mod.rs binrw_write_codepage_string::<128>
+//@ statement: fixed-width text field of width 128, ASCII text of lengths [0, 1, 2, 3, 4]: the field occupies exactly 128 bytes = the text truncated to 128, then NUL padding
+//@ bounded: text lengths [0, 1, 2, 3, 4] enumerated concretely, ASCII content (encoded length == character count)
+//@ timeout: 1200
+#[kani::proof]
+#[kani::stub(core::fmt::write, verif_fmt_ok)]
+fn c11_text_fixed_128_q0() {
+    for len in [0, 1, 2, 3, 4] {
+        check_fixed::<128>(len, false);
+    }
+}
+
+//@ id: text_fixed_240_q0
+//@ prop: C11
+//@ tier: quick
+//@ functions: insim_core/src/string/mod.rs binrw_write_codepage_string::<240>
+//@ statement: fixed-width text field of width 240, ASCII text of lengths [0, 1, 2, 3, 4]: the field occupies exactly 240 bytes = the text truncated to 240, then NUL padding
+//@ bounded: text lengths [0, 1, 2, 3, 4] enumerated concretely, ASCII content (encoded length == character count)
+//@ timeout: 1200
+#[kani::proof]
+#[kani::stub(core::fmt::write, verif_fmt_ok)]
+fn c11_text_fixed_240_q0() {
+    for len in [0, 1, 2, 3, 4] {
+        check_fixed::<240>(len, false);
+    }
+}
+
+//@ id: text_aligned_64_qa0
+//@ prop: C11
+//@ tier: quick
+//@ functions: insim_core/src/string/mod.rs binrw_write_codepage_string::<64>
+//@ statement: variable-width message field of maximum 64 (aligned to 4), ASCII text of lengths [0, 1, 2, 3, 4]: the field is the text (truncated to 64) NUL-padded to a multiple of 4, never longer than 64, with less than 4 bytes of padding
+//@ bounded: text lengths [0, 1, 2, 3, 4] enumerated concretely, ASCII content
+//@ timeout: 1200
+#[kani::proof]
+#[kani::stub(core::fmt::write, verif_fmt_ok)]
+fn c11_text_aligned_64_qa0() {
+    for len in [0, 1, 2, 3, 4] {
+        check_aligned::<64>(len);
+    }
+}
+
+//@ id: text_aligned_128_qa0
+//@ prop: C11
+//@ tier: quick
+//@ functions: insim_core/src/string/mod.rs binrw_write_codepage_string::<128>
+//@ statement: variable-width message field of maximum 128 (aligned to 4), ASCII text of lengths [0, 1, 2, 3, 4]: the field is the text (truncated to 128) NUL-padded to a multiple of 4, never longer than 128, with less than 4 bytes of padding
+//@ bounded: text lengths [0, 1, 2, 3, 4] enumerated concretely, ASCII content
+//@ timeout: 1200
+#[kani::proof]
+#[kani::stub(core::fmt::write, verif_fmt_ok)]
+fn c11_text_aligned_128_qa0() {
+    for len in [0, 1, 2, 3, 4] {
+        check_aligned::<128>(len);
+    }
+}
+
+//@ id: text_aligned_240_qa0
+//@ prop: C11
+//@ tier: quick
+//@ functions: insim_core/src/string/mod.rs binrw_write_codepage_string::<240>
+//@ statement: variable-width message field of maximum 240 (aligned to 4), ASCII text of lengths [0, 1, 2, 3, 4]: the field is the text (truncated to 240) NUL-padded to a multiple of 4, never longer than 240, with less than 4 bytes of padding
+//@ bounded: text lengths [0, 1, 2, 3, 4] enumerated concretely, ASCII content
+//@ timeout: 1200
+#[kani::proof]
+#[kani::stub(core::fmt::write, verif_fmt_ok)]
+fn c11_text_aligned_240_qa0() {
+    for len in [0, 1, 2, 3, 4] {
+        check_aligned::<240>(len);
+    }
+}
+
+//@ id: text_aligned_8_small0
+//@ prop: C11
+//@ tier: quick
+//@ functions: insim_core/src/string/mod.rs binrw_write_codepage_string::<8>
+//@ statement: variable-width message field of maximum 8 (aligned to 4), ASCII text of lengths [0, 1, 2, 3, 4]: the field is the text (truncated to 8) NUL-padded to a multiple of 4, never longer than 8, with less than 4 bytes of padding
+//@ bounded: text lengths [0, 1, 2, 3, 4] enumerated concretely, ASCII content
+//@ timeout: 1200
+#[kani::proof]
+#[kani::stub(core::fmt::write, verif_fmt_ok)]
+fn c11_text_aligned_8_small0() {
+    for len in [0, 1, 2, 3, 4] {
+        check_aligned::<8>(len);
+    }
+}
+
+//@ id: text_aligned_8_small1
+//@ prop: C11
+//@ tier: quick
+//@ functions: insim_core/src/string/mod.rs binrw_write_codepage_string::<8>
+//@ statement: variable-width message field of maximum 8 (aligned to 4), ASCII text of lengths [5, 6, 7, 8, 9]: the field is the text (truncated to 8) NUL-padded to a multiple of 4, never longer than 8, with less than 4 bytes of padding
+//@ bounded: text lengths [5, 6, 7, 8, 9] enumerated concretely, ASCII content
+//@ timeout: 1200
+#[kani::proof]
+#[kani::stub(core::fmt::write, verif_fmt_ok)]
+fn c11_text_aligned_8_small1() {
+    for len in [5, 6, 7, 8, 9] {
+        check_aligned::<8>(len);
+    }
+}
+
+//@ id: text_aligned_8_small2
+//@ prop: C11
+//@ tier: quick
+//@ functions: insim_core/src/string/mod.rs binrw_write_codepage_string::<8>
+//@ statement: variable-width message field of maximum 8 (aligned to 4), ASCII text of lengths [10, 11, 12, 13, 14]: the field is the text (truncated to 8) NUL-padded to a multiple of 4, never longer than 8, with less than 4 bytes of padding
+//@ bounded: text lengths [10, 11, 12, 13, 14] enumerated concretely, ASCII content
+//@ timeout: 1200
+#[kani::proof]
+#[kani::stub(core::fmt::write, verif_fmt_ok)]
+fn c11_text_aligned_8_small2() {
+    for len in [10, 11, 12, 13, 14] {
+        check_aligned::<8>(len);
+    }
+}
+
+//@ id: text_aligned_8_small3
+//@ prop: C11
+//@ tier: quick
+//@ functions: insim_core/src/string/mod.rs binrw_write_codepage_string::<8>
+//@ statement: variable-width message field of maximum 8 (aligned to 4), ASCII text of lengths [15, 16, 17]: the field is the text (truncated to 8) NUL-padded to a multiple of 4, never longer than 8, with less than 4 bytes of padding
+//@ bounded: text lengths [15, 16, 17] enumerated concretely, ASCII content
+//@ timeout: 1200
+#[kani::proof]
+#[kani::stub(core::fmt::write, verif_fmt_ok)]
+fn c11_text_aligned_8_small3() {
+    for len in [15, 16, 17] {
+        check_aligned::<8>(len);
+    }
+}
+
+//@ id: text_aligned_16_small0
+//@ prop: C11
+//@ tier: quick
+//@ functions: insim_core/src/string/mod.rs binrw_write_codepage_string::<16>
+//@ statement: variable-width message field of maximum 16 (aligned to 4), ASCII text of lengths [13, 14, 15, 16, 17]: the field is the text (truncated to 16) NUL-padded to a multiple of 4, never longer than 16, with less than 4 bytes of padding
+//@ bounded: text lengths [13, 14, 15, 16, 17] enumerated concretely, ASCII content
+//@ timeout: 1200
+#[kani::proof]
+#[kani::stub(core::fmt::write, verif_fmt_ok)]
+fn c11_text_aligned_16_small0() {
+    for len in [13, 14, 15, 16, 17] {
+        check_aligned::<16>(len);
+    }
+}
+
+//@ id: text_aligned_16_small1
+//@ prop: C11
+//@ tier: quick
+//@ functions: insim_core/src/string/mod.rs binrw_write_codepage_string::<16>
+//@ statement: variable-width message field of maximum 16 (aligned to 4), ASCII text of lengths [18, 19, 20, 32, 33]: the field is the text (truncated to 16) NUL-padded to a multiple of 4, never longer than 16, with less than 4 bytes of padding
+//@ bounded: text lengths [18, 19, 20, 32, 33] enumerated concretely, ASCII content
+//@ timeout: 1200
+#[kani::proof]
+#[kani::stub(core::fmt::write, verif_fmt_ok)]
+fn c11_text_aligned_16_small1() {
+    for len in [18, 19, 20, 32, 33] {
+        check_aligned::<16>(len);
+    }
+}
+
+//@ id: text_fixed_6_t0
+//@ prop: C11
+//@ tier: thorough
+//@ functions: insim_core/src/string/mod.rs binrw_write_codepage_string::<6>
+//@ statement: fixed-width text field of width 6, ASCII text of lengths [2, 3, 4, 8, 9]: the field occupies exactly 6 bytes = the text truncated to 6, then NUL padding
+//@ bounded: text lengths [2, 3, 4, 8, 9] enumerated concretely, ASCII content (encoded length == character count)
+//@ timeout: 1200
+#[kani::proof]
+#[kani::stub(core::fmt::write, verif_fmt_ok)]
+fn c11_text_fixed_6_t0() {
+    for len in [2, 3, 4, 8, 9] {
         check_fixed::<6>(len, false);
     }
 }
 
-//@ id: text_fixed_8_0
+//@ id: text_fixed_6_t1
 //@ prop: C11
-//@ functions: insim_core/src/string/mod.rs binrw_write_codepage_string::<8>
-//@ statement: fixed-width text field of width 8, ASCII text of lengths [0, 1, 2, 3, 4, 5, 6, 7, 8, 9, 10, 11]: the field occupies exactly 8 bytes = the text truncated to 8, then NUL padding
-//@ bounded: text lengths 0..=11 of all 0..=2N+1 enumerated concretely, ASCII content (encoded length == character count); multi-byte / multi-codepage content reaches this logic only through the encoded length
-//@ timeout: 1500
+//@ tier: thorough
+//@ functions: insim_core/src/string/mod.rs binrw_write_codepage_string::<6>
+//@ statement: fixed-width text field of width 6, ASCII text of lengths [10, 11, 12, 13]: the field occupies exactly 6 bytes = the text truncated to 6, then NUL padding
+//@ bounded: text lengths [10, 11, 12, 13] enumerated concretely, ASCII content (encoded length == character count)
+//@ timeout: 1200
 #[kani::proof]
 #[kani::stub(core::fmt::write, verif_fmt_ok)]
-fn c11_text_fixed_8_0() {
-    for len in [0, 1, 2, 3, 4, 5, 6, 7, 8, 9, 10, 11] {
-        check_fixed::<8>(len, false);
+fn c11_text_fixed_6_t1() {
+    for len in [10, 11, 12, 13] {
+        check_fixed::<6>(len, false);
     }
 }
 
-//@ id: text_fixed_8_1
+//@ id: text_fixed_16_t0
 //@ prop: C11
-//@ functions: insim_core/src/string/mod.rs binrw_write_codepage_string::<8>
-//@ statement: fixed-width text field of width 8, ASCII text of lengths [12, 13, 14, 15, 16, 17]: the field occupies exactly 8 bytes = the text truncated to 8, then NUL padding
-//@ bounded: text lengths 12..=17 of all 0..=2N+1 enumerated concretely, ASCII content (encoded length == character count); multi-byte / multi-codepage content reaches this logic only through the encoded length
-//@ timeout: 1500
-#[kani::proof]
-#[kani::stub(core::fmt::write, verif_fmt_ok)]
-fn c11_text_fixed_8_1() {
-    for len in [12, 13, 14, 15, 16, 17] {
-        check_fixed::<8>(len, false);
-    }
-}
-
-//@ id: text_fixed_16_0
-//@ prop: C11
+//@ tier: thorough
 //@ functions: insim_core/src/string/mod.rs binrw_write_codepage_string::<16>
-//@ statement: fixed-width text field of width 16, ASCII text of lengths [0, 1, 2, 3, 4, 5, 6, 7, 8, 9, 10, 11]: the field occupies exactly 16 bytes = the text truncated to 16, then NUL padding (also in raw mode, as used for the ISI admin password)
-//@ bounded: text lengths 0..=11 of all 0..=2N+1 enumerated concretely, ASCII content (encoded length == character count); multi-byte / multi-codepage content reaches this logic only through the encoded length
-//@ timeout: 1500
+//@ statement: fixed-width text field of width 16, ASCII text of lengths [2, 3, 4, 5, 6]: the field occupies exactly 16 bytes = the text truncated to 16, then NUL padding (also in raw mode, as used for the ISI admin password)
+//@ bounded: text lengths [2, 3, 4, 5, 6] enumerated concretely, ASCII content (encoded length == character count)
+//@ timeout: 1200
 #[kani::proof]
 #[kani::stub(core::fmt::write, verif_fmt_ok)]
-fn c11_text_fixed_16_0() {
-    for len in [0, 1, 2, 3, 4, 5, 6, 7, 8, 9, 10, 11] {
+fn c11_text_fixed_16_t0() {
+    for len in [2, 3, 4, 5, 6] {
         check_fixed::<16>(len, false);
         check_fixed::<16>(len, true);
     }
 }
 
-//@ id: text_fixed_16_1
+//@ id: text_fixed_16_t1
 //@ prop: C11
+//@ tier: thorough
 //@ functions: insim_core/src/string/mod.rs binrw_write_codepage_string::<16>
-//@ statement: fixed-width text field of width 16, ASCII text of lengths [12, 13, 14, 15, 16, 17, 18, 19, 20, 21, 22, 23]: the field occupies exactly 16 bytes = the text truncated to 16, then NUL padding (also in raw mode, as used for the ISI admin password)
-//@ bounded: text lengths 12..=23 of all 0..=2N+1 enumerated concretely, ASCII content (encoded length == character count); multi-byte / multi-codepage content reaches this logic only through the encoded length
-//@ timeout: 1500
+//@ statement: fixed-width text field of width 16, ASCII text of lengths [7, 8, 9, 10, 11]: the field occupies exactly 16 bytes = the text truncated to 16, then NUL padding (also in raw mode, as used for the ISI admin password)
+//@ bounded: text lengths [7, 8, 9, 10, 11] enumerated concretely, ASCII content (encoded length == character count)
+//@ timeout: 1200
 #[kani::proof]
 #[kani::stub(core::fmt::write, verif_fmt_ok)]
-fn c11_text_fixed_16_1() {
-    for len in [12, 13, 14, 15, 16, 17, 18, 19, 20, 21, 22, 23] {
+fn c11_text_fixed_16_t1() {
+    for len in [7, 8, 9, 10, 11] {
         check_fixed::<16>(len, false);
         check_fixed::<16>(len, true);
     }
 }
 
-//@ id: text_fixed_16_2
+//@ id: text_fixed_16_t2
 //@ prop: C11
+//@ tier: thorough
 //@ functions: insim_core/src/string/mod.rs binrw_write_codepage_string::<16>
-//@ statement: fixed-width text field of width 16, ASCII text of lengths [24, 25, 26, 27, 28, 29, 30, 31, 32, 33]: the field occupies exactly 16 bytes = the text truncated to 16, then NUL padding (also in raw mode, as used for the ISI admin password)
-//@ bounded: text lengths 24..=33 of all 0..=2N+1 enumerated concretely, ASCII content (encoded length == character count); multi-byte / multi-codepage content reaches this logic only through the encoded length
-//@ timeout: 1500
+//@ statement: fixed-width text field of width 16, ASCII text of lengths [12, 13, 14, 18, 19]: the field occupies exactly 16 bytes = the text truncated to 16, then NUL padding (also in raw mode, as used for the ISI admin password)
+//@ bounded: text lengths [12, 13, 14, 18, 19] enumerated concretely, ASCII content (encoded length == character count)
+//@ timeout: 1200
 #[kani::proof]
 #[kani::stub(core::fmt::write, verif_fmt_ok)]
-fn c11_text_fixed_16_2() {
-    for len in [24, 25, 26, 27, 28, 29, 30, 31, 32, 33] {
+fn c11_text_fixed_16_t2() {
+    for len in [12, 13, 14, 18, 19] {
         check_fixed::<16>(len, false);
         check_fixed::<16>(len, true);
     }
 }
 
-//@ id: text_fixed_24_0
+//@ id: text_fixed_16_t3
 //@ prop: C11
-//@ functions: insim_core/src/string/mod.rs binrw_write_codepage_string::<24>
-//@ statement: fixed-width text field of width 24, ASCII text of lengths [0, 1, 2, 3, 4, 5, 6, 7, 8, 9, 10, 11]: the field occupies exactly 24 bytes = the text truncated to 24, then NUL padding
-//@ bounded: text lengths 0..=11 of all 0..=2N+1 enumerated concretely, ASCII content (encoded length == character count); multi-byte / multi-codepage content reaches this logic only through the encoded length
-//@ timeout: 1500
+//@ tier: thorough
+//@ functions: insim_core/src/string/mod.rs binrw_write_codepage_string::<16>
+//@ statement: fixed-width text field of width 16, ASCII text of lengths [20, 21, 22, 23, 24]: the field occupies exactly 16 bytes = the text truncated to 16, then NUL padding (also in raw mode, as used for the ISI admin password)
+//@ bounded: text lengths [20, 21, 22, 23, 24] enumerated concretely, ASCII content (encoded length == character count)
+//@ timeout: 1200
 #[kani::proof]
 #[kani::stub(core::fmt::write, verif_fmt_ok)]
-fn c11_text_fixed_24_0() {
-    for len in [0, 1, 2, 3, 4, 5, 6, 7, 8, 9, 10, 11] {
+fn c11_text_fixed_16_t3() {
+    for len in [20, 21, 22, 23, 24] {
+        check_fixed::<16>(len, false);
+        check_fixed::<16>(len, true);
+    }
+}
+
+//@ id: text_fixed_16_t4
+//@ prop: C11
+//@ tier: thorough
+//@ functions: insim_core/src/string/mod.rs binrw_write_codepage_string::<16>
+//@ statement: fixed-width text field of width 16, ASCII text of lengths [25, 26, 27, 28, 29]: the field occupies exactly 16 bytes = the text truncated to 16, then NUL padding (also in raw mode, as used for the ISI admin password)
+//@ bounded: text lengths [25, 26, 27, 28, 29] enumerated concretely, ASCII content (encoded length == character count)
+//@ timeout: 1200
+#[kani::proof]
+#[kani::stub(core::fmt::write, verif_fmt_ok)]
+fn c11_text_fixed_16_t4() {
+    for len in [25, 26, 27, 28, 29] {
+        check_fixed::<16>(len, false);
+        check_fixed::<16>(len, true);
+    }
+}
+
+//@ id: text_fixed_16_t5
+//@ prop: C11
+//@ tier: thorough
+//@ functions: insim_core/src/string/mod.rs binrw_write_codepage_string::<16>
+//@ statement: fixed-width text field of width 16, ASCII text of lengths [30, 31, 32, 33]: the field occupies exactly 16 bytes = the text truncated to 16, then NUL padding (also in raw mode, as used for the ISI admin password)
+//@ bounded: text lengths [30, 31, 32, 33] enumerated concretely, ASCII content (encoded length == character count)
+//@ timeout: 1200
+#[kani::proof]
+#[kani::stub(core::fmt::write, verif_fmt_ok)]
+fn c11_text_fixed_16_t5() {
+    for len in [30, 31, 32, 33] {
+        check_fixed::<16>(len, false);
+        check_fixed::<16>(len, true);
+    }
+}
+
+//@ id: text_fixed_24_t0
+//@ prop: C11
+//@ tier: thorough
+//@ functions: insim_core/src/string/mod.rs binrw_write_codepage_string::<24>
+//@ statement: fixed-width text field of width 24, ASCII text of lengths [2, 3, 4, 5, 6]: the field occupies exactly 24 bytes = the text truncated to 24, then NUL padding
+//@ bounded: text lengths [2, 3, 4, 5, 6] enumerated concretely, ASCII content (encoded length == character count)
+//@ timeout: 1200
+#[kani::proof]
+#[kani::stub(core::fmt::write, verif_fmt_ok)]
+fn c11_text_fixed_24_t0() {
+    for len in [2, 3, 4, 5, 6] {
         check_fixed::<24>(len, false);
     }
 }
 
-//@ id: text_fixed_24_1
+//@ id: text_fixed_24_t1
 //@ prop: C11
+//@ tier: thorough
 //@ functions: insim_core/src/string/mod.rs binrw_write_codepage_string::<24>
-//@ statement: fixed-width text field of width 24, ASCII text of lengths [12, 13, 14, 15, 16, 17, 18, 19, 20, 21, 22, 23]: the field occupies exactly 24 bytes = the text truncated to 24, then NUL padding
-//@ bounded: text lengths 12..=23 of all 0..=2N+1 enumerated concretely, ASCII content (encoded length == character count); multi-byte / multi-codepage content reaches this logic only through the encoded length
-//@ timeout: 1500
+//@ statement: fixed-width text field of width 24, ASCII text of lengths [7, 8, 9, 10, 11]: the field occupies exactly 24 bytes = the text truncated to 24, then NUL padding
+//@ bounded: text lengths [7, 8, 9, 10, 11] enumerated concretely, ASCII content (encoded length == character count)
+//@ timeout: 1200
 #[kani::proof]
 #[kani::stub(core::fmt::write, verif_fmt_ok)]
-fn c11_text_fixed_24_1() {
-    for len in [12, 13, 14, 15, 16, 17, 18, 19, 20, 21, 22, 23] {
+fn c11_text_fixed_24_t1() {
+    for len in [7, 8, 9, 10, 11] {
         check_fixed::<24>(len, false);
     }
 }
 
-//@ id: text_fixed_24_2
+//@ id: text_fixed_24_t2
 //@ prop: C11
+//@ tier: thorough
 //@ functions: insim_core/src/string/mod.rs binrw_write_codepage_string::<24>
-//@ statement: fixed-width text field of width 24, ASCII text of lengths [24, 25, 26, 27, 28, 29, 30, 31, 32, 33, 34, 35]: the field occupies exactly 24 bytes = the text truncated to 24, then NUL padding
-//@ bounded: text lengths 24..=35 of all 0..=2N+1 enumerated concretely, ASCII content (encoded length == character count); multi-byte / multi-codepage content reaches this logic only through the encoded length
-//@ timeout: 1500
+//@ statement: fixed-width text field of width 24, ASCII text of lengths [12, 13, 14, 15, 16]: the field occupies exactly 24 bytes = the text truncated to 24, then NUL padding
+//@ bounded: text lengths [12, 13, 14, 15, 16] enumerated concretely, ASCII content (encoded length == character count)
+//@ timeout: 1200
 #[kani::proof]
 #[kani::stub(core::fmt::write, verif_fmt_ok)]
-fn c11_text_fixed_24_2() {
-    for len in [24, 25, 26, 27, 28, 29, 30, 31, 32, 33, 34, 35] {
+fn c11_text_fixed_24_t2() {
+    for len in [12, 13, 14, 15, 16] {
         check_fixed::<24>(len, false);
     }
 }
 
-//@ id: text_fixed_24_3
+//@ id: text_fixed_24_t3
 //@ prop: C11
+//@ tier: thorough
 //@ functions: insim_core/src/string/mod.rs binrw_write_codepage_string::<24>
-//@ statement: fixed-width text field of width 24, ASCII text of lengths [36, 37, 38, 39, 40, 41, 42, 43, 44, 45, 46, 47]: the field occupies exactly 24 bytes = the text truncated to 24, then NUL padding
-//@ bounded: text lengths 36..=47 of all 0..=2N+1 enumerated concretely, ASCII content (encoded length == character count); multi-byte / multi-codepage content reaches this logic only through the encoded length
-//@ timeout: 1500
+//@ statement: fixed-width text field of width 24, ASCII text of lengths [17, 18, 19, 20, 21]: the field occupies exactly 24 bytes = the text truncated to 24, then NUL padding
+//@ bounded: text lengths [17, 18, 19, 20, 21] enumerated concretely, ASCII content (encoded length == character count)
+//@ timeout: 1200
 #[kani::proof]
 #[kani::stub(core::fmt::write, verif_fmt_ok)]
-fn c11_text_fixed_24_3() {
-    for len in [36, 37, 38, 39, 40, 41, 42, 43, 44, 45, 46, 47] {
+fn c11_text_fixed_24_t3() {
+    for len in [17, 18, 19, 20, 21] {
         check_fixed::<24>(len, false);
     }
 }
 
-//@ id: text_fixed_24_4
+//@ id: text_fixed_24_t4
 //@ prop: C11
+//@ tier: thorough
 //@ functions: insim_core/src/string/mod.rs binrw_write_codepage_string::<24>
-//@ statement: fixed-width text field of width 24, ASCII text of lengths [48, 49]: the field occupies exactly 24 bytes = the text truncated to 24, then NUL padding
-//@ bounded: text lengths 48..=49 of all 0..=2N+1 enumerated concretely, ASCII content (encoded length == character count); multi-byte / multi-codepage content reaches this logic only through the encoded length
-//@ timeout: 1500
+//@ statement: fixed-width text field of width 24, ASCII text of lengths [22, 26, 27, 28, 29]: the field occupies exactly 24 bytes = the text truncated to 24, then NUL padding
+//@ bounded: text lengths [22, 26, 27, 28, 29] enumerated concretely, ASCII content (encoded length == character count)
+//@ timeout: 1200
 #[kani::proof]
 #[kani::stub(core::fmt::write, verif_fmt_ok)]
-fn c11_text_fixed_24_4() {
-    for len in [48, 49] {
+fn c11_text_fixed_24_t4() {
+    for len in [22, 26, 27, 28, 29] {
         check_fixed::<24>(len, false);
     }
 }
 
-//@ id: text_fixed_32_0
+//@ id: text_fixed_24_t5
 //@ prop: C11
-//@ functions: insim_core/src/string/mod.rs binrw_write_codepage_string::<32>
-//@ statement: fixed-width text field of width 32, ASCII text of lengths [0, 1, 2, 3, 4, 5, 6, 7, 8, 9, 10, 11]: the field occupies exactly 32 bytes = the text truncated to 32, then NUL padding
-//@ bounded: text lengths 0..=11 of all 0..=2N+1 enumerated concretely, ASCII content (encoded length == character count); multi-byte / multi-codepage content reaches this logic only through the encoded length
-//@ timeout: 1500
+//@ tier: thorough
+//@ functions: insim_core/src/string/mod.rs binrw_write_codepage_string::<24>
+//@ statement: fixed-width text field of width 24, ASCII text of lengths [30, 31, 32, 33, 34]: the field occupies exactly 24 bytes = the text truncated to 24, then NUL padding
+//@ bounded: text lengths [30, 31, 32, 33, 34] enumerated concretely, ASCII content (encoded length == character count)
+//@ timeout: 1200
 #[kani::proof]
 #[kani::stub(core::fmt::write, verif_fmt_ok)]
-fn c11_text_fixed_32_0() {
-    for len in [0, 1, 2, 3, 4, 5, 6, 7, 8, 9, 10, 11] {
+fn c11_text_fixed_24_t5() {
+    for len in [30, 31, 32, 33, 34] {
+        check_fixed::<24>(len, false);
+    }
+}
+
+//@ id: text_fixed_24_t6
+//@ prop: C11
+//@ tier: thorough
+//@ functions: insim_core/src/string/mod.rs binrw_write_codepage_string::<24>
+//@ statement: fixed-width text field of width 24, ASCII text of lengths [35, 36, 37, 38, 39]: the field occupies exactly 24 bytes = the text truncated to 24, then NUL padding
+//@ bounded: text lengths [35, 36, 37, 38, 39] enumerated concretely, ASCII content (encoded length == character count)
+//@ timeout: 1200
+#[kani::proof]
+#[kani::stub(core::fmt::write, verif_fmt_ok)]
+fn c11_text_fixed_24_t6() {
+    for len in [35, 36, 37, 38, 39] {
+        check_fixed::<24>(len, false);
+    }
+}
+
+//@ id: text_fixed_24_t7
+//@ prop: C11
+//@ tier: thorough
+//@ functions: insim_core/src/string/mod.rs binrw_write_codepage_string::<24>
+//@ statement: fixed-width text field of width 24, ASCII text of lengths [40, 41, 42, 43, 44]: the field occupies exactly 24 bytes = the text truncated to 24, then NUL padding
+//@ bounded: text lengths [40, 41, 42, 43, 44] enumerated concretely, ASCII content (encoded length == character count)
+//@ timeout: 1200
+#[kani::proof]
+#[kani::stub(core::fmt::write, verif_fmt_ok)]
+fn c11_text_fixed_24_t7() {
+    for len in [40, 41, 42, 43, 44] {
+        check_fixed::<24>(len, false);
+    }
+}
+
+//@ id: text_fixed_24_t8
+//@ prop: C11
+//@ tier: thorough
+//@ functions: insim_core/src/string/mod.rs binrw_write_codepage_string::<24>
+//@ statement: fixed-width text field of width 24, ASCII text of lengths [45, 46, 47, 48, 49]: the field occupies exactly 24 bytes = the text truncated to 24, then NUL padding
+//@ bounded: text lengths [45, 46, 47, 48, 49] enumerated concretely, ASCII content (encoded length == character count)
+//@ timeout: 1200
+#[kani::proof]
+#[kani::stub(core::fmt::write, verif_fmt_ok)]
+fn c11_text_fixed_24_t8() {
+    for len in [45, 46, 47, 48, 49] {
+        check_fixed::<24>(len, false);
+    }
+}
+
+//@ id: text_fixed_32_t0
+//@ prop: C11
+//@ tier: thorough
+//@ functions: insim_core/src/string/mod.rs binrw_write_codepage_string::<32>
+//@ statement: fixed-width text field of width 32, ASCII text of lengths [2, 3, 4, 5, 6]: the field occupies exactly 32 bytes = the text truncated to 32, then NUL padding
+//@ bounded: text lengths [2, 3, 4, 5, 6] enumerated concretely, ASCII content (encoded length == character count)
+//@ timeout: 1200
+#[kani::proof]
+#[kani::stub(core::fmt::write, verif_fmt_ok)]
+fn c11_text_fixed_32_t0() {
+    for len in [2, 3, 4, 5, 6] {
         check_fixed::<32>(len, false);
     }
 }
 
-//@ id: text_fixed_32_1
+//@ id: text_fixed_32_t1
 //@ prop: C11
+//@ tier: thorough
 //@ functions: insim_core/src/string/mod.rs binrw_write_codepage_string::<32>
-//@ statement: fixed-width text field of width 32, ASCII text of lengths [12, 13, 14, 15, 16, 17, 18, 19, 20, 21, 22, 23]: the field occupies exactly 32 bytes = the text truncated to 32, then NUL padding
-//@ bounded: text lengths 12..=23 of all 0..=2N+1 enumerated concretely, ASCII content (encoded length == character count); multi-byte / multi-codepage content reaches this logic only through the encoded length
-//@ timeout: 1500
+//@ statement: fixed-width text field of width 32, ASCII text of lengths [7, 8, 9, 10, 11]: the field occupies exactly 32 bytes = the text truncated to 32, then NUL padding
+//@ bounded: text lengths [7, 8, 9, 10, 11] enumerated concretely, ASCII content (encoded length == character count)
+//@ timeout: 1200
 #[kani::proof]
 #[kani::stub(core::fmt::write, verif_fmt_ok)]
-fn c11_text_fixed_32_1() {
-    for len in [12, 13, 14, 15, 16, 17, 18, 19, 20, 21, 22, 23] {
+fn c11_text_fixed_32_t1() {
+    for len in [7, 8, 9, 10, 11] {
         check_fixed::<32>(len, false);
     }
 }
 
-//@ id: text_fixed_32_2
+//@ id: text_fixed_32_t2
 //@ prop: C11
+//@ tier: thorough
 //@ functions: insim_core/src/string/mod.rs binrw_write_codepage_string::<32>
-//@ statement: fixed-width text field of width 32, ASCII text of lengths [24, 25, 26, 27, 28, 29, 30, 31, 32, 33, 34, 35]: the field occupies exactly 32 bytes = the text truncated to 32, then NUL padding
-//@ bounded: text lengths 24..=35 of all 0..=2N+1 enumerated concretely, ASCII content (encoded length == character count); multi-byte / multi-codepage content reaches this logic only through the encoded length
-//@ timeout: 1500
+//@ statement: fixed-width text field of width 32, ASCII text of lengths [12, 13, 14, 15, 16]: the field occupies exactly 32 bytes = the text truncated to 32, then NUL padding
+//@ bounded: text lengths [12, 13, 14, 15, 16] enumerated concretely, ASCII content (encoded length == character count)
+//@ timeout: 1200
 #[kani::proof]
 #[kani::stub(core::fmt::write, verif_fmt_ok)]
-fn c11_text_fixed_32_2() {
-    for len in [24, 25, 26, 27, 28, 29, 30, 31, 32, 33, 34, 35] {
+fn c11_text_fixed_32_t2() {
+    for len in [12, 13, 14, 15, 16] {
         check_fixed::<32>(len, false);
     }
 }
 
-//@ id: text_fixed_32_3
+//@ id: text_fixed_32_t3
 //@ prop: C11
+//@ tier: thorough
 //@ functions: insim_core/src/string/mod.rs binrw_write_codepage_string::<32>
-//@ statement: fixed-width text field of width 32, ASCII text of lengths [36, 37, 38, 39, 40, 41, 42, 43, 44, 45, 46, 47]: the field occupies exactly 32 bytes = the text truncated to 32, then NUL padding
-//@ bounded: text lengths 36..=47 of all 0..=2N+1 enumerated concretely, ASCII content (encoded length == character count); multi-byte / multi-codepage content reaches this logic only through the encoded length
-//@ timeout: 1500
+//@ statement: fixed-width text field of width 32, ASCII text of lengths [17, 18, 19, 20, 21]: the field occupies exactly 32 bytes = the text truncated to 32, then NUL padding
+//@ bounded: text lengths [17, 18, 19, 20, 21] enumerated concretely, ASCII content (encoded length == character count)
+//@ timeout: 1200
 #[kani::proof]
 #[kani::stub(core::fmt::write, verif_fmt_ok)]
-fn c11_text_fixed_32_3() {
-    for len in [36, 37, 38, 39, 40, 41, 42, 43, 44, 45, 46, 47] {
+fn c11_text_fixed_32_t3() {
+    for len in [17, 18, 19, 20, 21] {
         check_fixed::<32>(len, false);
     }
 }
 
-//@ id: text_fixed_32_4
+//@ id: text_fixed_32_t4
 //@ prop: C11
+//@ tier: thorough
 //@ functions: insim_core/src/string/mod.rs binrw_write_codepage_string::<32>
-//@ statement: fixed-width text field of width 32, ASCII text of lengths [48, 49, 50, 51, 52, 53, 54, 55, 56, 57, 58, 59]: the field occupies exactly 32 bytes = the text truncated to 32, then NUL padding
-//@ bounded: text lengths 48..=59 of all 0..=2N+1 enumerated concretely, ASCII content (encoded length == character count); multi-byte / multi-codepage content reaches this logic only through the encoded length
-//@ timeout: 1500
+//@ statement: fixed-width text field of width 32, ASCII text of lengths [22, 23, 24, 25, 26]: the field occupies exactly 32 bytes = the text truncated to 32, then NUL padding
+//@ bounded: text lengths [22, 23, 24, 25, 26] enumerated concretely, ASCII content (encoded length == character count)
+//@ timeout: 1200
 #[kani::proof]
 #[kani::stub(core::fmt::write, verif_fmt_ok)]
-fn c11_text_fixed_32_4() {
-    for len in [48, 49, 50, 51, 52, 53, 54, 55, 56, 57, 58, 59] {
+fn c11_text_fixed_32_t4() {
+    for len in [22, 23, 24, 25, 26] {
         check_fixed::<32>(len, false);
     }
 }
 
-//@ id: text_fixed_32_5
+//@ id: text_fixed_32_t5
 //@ prop: C11
+//@ tier: thorough
 //@ functions: insim_core/src/string/mod.rs binrw_write_codepage_string::<32>
-//@ statement: fixed-width text field of width 32, ASCII text of lengths [60, 61, 62, 63, 64, 65]: the field occupies exactly 32 bytes = the text truncated to 32, then NUL padding
-//@ bounded: text lengths 60..=65 of all 0..=2N+1 enumerated concretely, ASCII content (encoded length == character count); multi-byte / multi-codepage content reaches this logic only through the encoded length
-//@ timeout: 1500
+//@ statement: fixed-width text field of width 32, ASCII text of lengths [27, 28, 29, 30, 34]: the field occupies exactly 32 bytes = the text truncated to 32, then NUL padding
+//@ bounded: text lengths [27, 28, 29, 30, 34] enumerated concretely, ASCII content (encoded length == character count)
+//@ timeout: 1200
 #[kani::proof]
 #[kani::stub(core::fmt::write, verif_fmt_ok)]
-fn c11_text_fixed_32_5() {
-    for len in [60, 61, 62, 63, 64, 65] {
+fn c11_text_fixed_32_t5() {
+    for len in [27, 28, 29, 30, 34] {
         check_fixed::<32>(len, false);
     }
 }
 
-//@ id: text_fixed_64_0
+//@ id: text_fixed_32_t6
 //@ prop: C11
-//@ functions: insim_core/src/string/mod.rs binrw_write_codepage_string::<64>
-//@ statement: fixed-width text field of width 64, ASCII text of lengths [0, 1, 2, 3, 4, 5, 59, 60, 61, 62, 63, 64]: the field occupies exactly 64 bytes = the text truncated to 64, then NUL padding
-//@ bounded: text lengths 0..=64 of the boundary set {0..5} u {N-5..N+5} u {2N,2N+1} enumerated concretely, ASCII content (encoded length == character count); multi-byte / multi-codepage content reaches this logic only through the encoded length
-//@ timeout: 1500
+//@ tier: thorough
+//@ functions: insim_core/src/string/mod.rs binrw_write_codepage_string::<32>
+//@ statement: fixed-width text field of width 32, ASCII text of lengths [35, 36, 37, 38, 39]: the field occupies exactly 32 bytes = the text truncated to 32, then NUL padding
+//@ bounded: text lengths [35, 36, 37, 38, 39] enumerated concretely, ASCII content (encoded length == character count)
+//@ timeout: 1200
 #[kani::proof]
 #[kani::stub(core::fmt::write, verif_fmt_ok)]
-fn c11_text_fixed_64_0() {
-    for len in [0, 1, 2, 3, 4, 5, 59, 60, 61, 62, 63, 64] {
-        check_fixed::<64>(len, false);
+fn c11_text_fixed_32_t6() {
+    for len in [35, 36, 37, 38, 39] {
+        check_fixed::<32>(len, false);
     }
 }
 
-//@ id: text_fixed_64_1
+//@ id: text_fixed_32_t7
 //@ prop: C11
-//@ functions: insim_core/src/string/mod.rs binrw_write_codepage_string::<64>
-//@ statement: fixed-width text field of width 64, ASCII text of lengths [65, 66, 67, 68, 69, 128, 129]: the field occupies exactly 64 bytes = the text truncated to 64, then NUL padding
-//@ bounded: text lengths 65..=129 of the boundary set {0..5} u {N-5..N+5} u {2N,2N+1} enumerated concretely, ASCII content (encoded length == character count); multi-byte / multi-codepage content reaches this logic only through the encoded length
-//@ timeout: 1500
+//@ tier: thorough
+//@ functions: insim_core/src/string/mod.rs binrw_write_codepage_string::<32>
+//@ statement: fixed-width text field of width 32, ASCII text of lengths [40, 41, 42, 43, 44]: the field occupies exactly 32 bytes = the text truncated to 32, then NUL padding
+//@ bounded: text lengths [40, 41, 42, 43, 44] enumerated concretely, ASCII content (encoded length == character count)
+//@ timeout: 1200
 #[kani::proof]
 #[kani::stub(core::fmt::write, verif_fmt_ok)]
-fn c11_text_fixed_64_1() {
-    for len in [65, 66, 67, 68, 69, 128, 129] {
-        check_fixed::<64>(len, false);
+fn c11_text_fixed_32_t7() {
+    for len in [40, 41, 42, 43, 44] {
+        check_fixed::<32>(len, false);
     }
 }
 
-//@ id: text_fixed_96_0
+//@ id: text_fixed_32_t8
 //@ prop: C11
-//@ functions: insim_core/src/string/mod.rs binrw_write_codepage_string::<96>
-//@ statement: fixed-width text field of width 96, ASCII text of lengths [0, 1, 2, 3, 4, 5, 91, 92, 93, 94, 95, 96]: the field occupies exactly 96 bytes = the text truncated to 96, then NUL padding
-//@ bounded: text lengths 0..=96 of the boundary set {0..5} u {N-5..N+5} u {2N,2N+1} enumerated concretely, ASCII content (encoded length == character count); multi-byte / multi-codepage content reaches this logic only through the encoded length
-//@ timeout: 1500
+//@ tier: thorough
+//@ functions: insim_core/src/string/mod.rs binrw_write_codepage_string::<32>
+//@ statement: fixed-width text field of width 32, ASCII text of lengths [45, 46, 47, 48, 49]: the field occupies exactly 32 bytes = the text truncated to 32, then NUL padding
+//@ bounded: text lengths [45, 46, 47, 48, 49] enumerated concretely, ASCII content (encoded length == character count)
+//@ timeout: 1200
 #[kani::proof]
 #[kani::stub(core::fmt::write, verif_fmt_ok)]
-fn c11_text_fixed_96_0() {
-    for len in [0, 1, 2, 3, 4, 5, 91, 92, 93, 94, 95, 96] {
-        check_fixed::<96>(len, false);
+fn c11_text_fixed_32_t8() {
+    for len in [45, 46, 47, 48, 49] {
+        check_fixed::<32>(len, false);
     }
 }
 
-//@ id: text_fixed_96_1
+//@ id: text_fixed_32_t9
 //@ prop: C11
-//@ functions: insim_core/src/string/mod.rs binrw_write_codepage_string::<96>
-//@ statement: fixed-width text field of width 96, ASCII text of lengths [97, 98, 99, 100, 101, 192, 193]: the field occupies exactly 96 bytes = the text truncated to 96, then NUL padding
-//@ bounded: text lengths 97..=193 of the boundary set {0..5} u {N-5..N+5} u {2N,2N+1} enumerated concretely, ASCII content (encoded length == character count); multi-byte / multi-codepage content reaches this logic only through the encoded length
-//@ timeout: 1500
+//@ tier: thorough
+//@ functions: insim_core/src/string/mod.rs binrw_write_codepage_string::<32>
+//@ statement: fixed-width text field of width 32, ASCII text of lengths [50, 51, 52, 53, 54]: the field occupies exactly 32 bytes = the text truncated to 32, then NUL padding
+//@ bounded: text lengths [50, 51, 52, 53, 54] enumerated concretely, ASCII content (encoded length == character count)
+//@ timeout: 1200
 #[kani::proof]
 #[kani::stub(core::fmt::write, verif_fmt_ok)]
-fn c11_text_fixed_96_1() {
-    for len in [97, 98, 99, 100, 101, 192, 193] {
-        check_fixed::<96>(len, false);
+fn c11_text_fixed_32_t9() {
+    for len in [50, 51, 52, 53, 54] {
+        check_fixed::<32>(len, false);
     }
 }
 
-//@ id: text_fixed_128_0
+//@ id: text_fixed_32_t10
 //@ prop: C11
-//@ functions: insim_core/src/string/mod.rs binrw_write_codepage_string::<128>
-//@ statement: fixed-width text field of width 128, ASCII text of lengths [0, 1, 2, 3, 4, 5, 123, 124, 125, 126, 127, 128]: the field occupies exactly 128 bytes = the text truncated to 128, then NUL padding
-//@ bounded: text lengths 0..=128 of the boundary set {0..5} u {N-5..N+5} u {2N,2N+1} enumerated concretely, ASCII content (encoded length == character count); multi-byte / multi-codepage content reaches this logic only through the encoded length
-//@ timeout: 1500
+//@ tier: thorough
+//@ functions: insim_core/src/string/mod.rs binrw_write_codepage_string::<32>
+//@ statement: fixed-width text field of width 32, ASCII text of lengths [55, 56, 57, 58, 59]: the field occupies exactly 32 bytes = the text truncated to 32, then NUL padding
+//@ bounded: text lengths [55, 56, 57, 58, 59] enumerated concretely, ASCII content (encoded length == character count)
+//@ timeout: 1200
 #[kani::proof]
 #[kani::stub(core::fmt::write, verif_fmt_ok)]
-fn c11_text_fixed_128_0() {
-    for len in [0, 1, 2, 3, 4, 5, 123, 124, 125, 126, 127, 128] {
-        check_fixed::<128>(len, false);
+fn c11_text_fixed_32_t10() {
+    for len in [55, 56, 57, 58, 59] {
+        check_fixed::<32>(len, false);
     }
 }
 
-//@ id: text_fixed_128_1
+//@ id: text_fixed_32_t11
 //@ prop: C11
-//@ functions: insim_core/src/string/mod.rs binrw_write_codepage_string::<128>
-//@ statement: fixed-width text field of width 128, ASCII text of lengths [129, 130, 131, 132, 133, 256, 257]: the field occupies exactly 128 bytes = the text truncated to 128, then NUL padding
-//@ bounded: text lengths 129..=257 of the boundary set {0..5} u {N-5..N+5} u {2N,2N+1} enumerated concretely, ASCII content (encoded length == character count); multi-byte / multi-codepage content reaches this logic only through the encoded length
-//@ timeout: 1500
+//@ tier: thorough
+//@ functions: insim_core/src/string/mod.rs binrw_write_codepage_string::<32>
+//@ statement: fixed-width text field of width 32, ASCII text of lengths [60, 61, 62, 63, 64]: the field occupies exactly 32 bytes = the text truncated to 32, then NUL padding
+//@ bounded: text lengths [60, 61, 62, 63, 64] enumerated concretely, ASCII content (encoded length == character count)
+//@ timeout: 1200
 #[kani::proof]
 #[kani::stub(core::fmt::write, verif_fmt_ok)]
-fn c11_text_fixed_128_1() {
-    for len in [129, 130, 131, 132, 133, 256, 257] {
-        check_fixed::<128>(len, false);
+fn c11_text_fixed_32_t11() {
+    for len in [60, 61, 62, 63, 64] {
+        check_fixed::<32>(len, false);
     }
 }
 
-//@ id: text_fixed_240_0
+//@ id: text_fixed_32_t12
 //@ prop: C11
-//@ functions: insim_core/src/string/mod.rs binrw_write_codepage_string::<240>
-//@ statement: fixed-width text field of width 240, ASCII text of lengths [0, 1, 2, 3, 4, 5, 235, 236, 237, 238, 239, 240]: the field occupies exactly 240 bytes = the text truncated to 240, then NUL padding
-//@ bounded: text lengths 0..=240 of the boundary set {0..5} u {N-5..N+5} u {2N,2N+1} enumerated concretely, ASCII content (encoded length == character count); multi-byte / multi-codepage content reaches this logic only through the encoded length
-//@ timeout: 1500
+//@ tier: thorough
+//@ functions: insim_core/src/string/mod.rs binrw_write_codepage_string::<32>
+//@ statement: fixed-width text field of width 32, ASCII text of lengths [65]: the field occupies exactly 32 bytes = the text truncated to 32, then NUL padding
+//@ bounded: text lengths [65] enumerated concretely, ASCII content (encoded length == character count)
+//@ timeout: 1200
 #[kani::proof]
 #[kani::stub(core::fmt::write, verif_fmt_ok)]
-fn c11_text_fixed_240_0() {
-    for len in [0, 1, 2, 3, 4, 5, 235, 236, 237, 238, 239, 240] {
-        check_fixed::<240>(len, false);
-    }
-}
-
-//@ id: text_fixed_240_1
-//@ prop: C11
-//@ functions: insim_core/src/string/mod.rs binrw_write_codepage_string::<240>
-//@ statement: fixed-width text field of width 240, ASCII text of lengths [241, 242, 243, 244, 245, 480, 481]: the field occupies exactly 240 bytes = the text truncated to 240, then NUL padding
-//@ bounded: text lengths 241..=481 of the boundary set {0..5} u {N-5..N+5} u {2N,2N+1} enumerated concretely, ASCII content (encoded length == character count); multi-byte / multi-codepage content reaches this logic only through the encoded length
-//@ timeout: 1500
-#[kani::proof]
-#[kani::stub(core::fmt::write, verif_fmt_ok)]
-fn c11_text_fixed_240_1() {
-    for len in [241, 242, 243, 244, 245, 480, 481] {
-        check_fixed::<240>(len, false);
-    }
-}
-
-//@ id: text_aligned_64_0
-//@ prop: C11
-//@ functions: insim_core/src/string/mod.rs binrw_write_codepage_string::<64>
-//@ statement: variable-width message field of maximum 64 (aligned to 4), ASCII text of lengths [0, 1, 2, 3, 4, 5, 6, 7, 8, 9, 58, 59]: the field is the text (truncated to 64) NUL-padded to a multiple of 4, never longer than 64, with less than 4 bytes of padding
-//@ bounded: text lengths [0, 1, 2, 3, 4, 5, 6, 7, 8, 9, 58, 59] enumerated concretely (every residue mod 4 on both sides of the maximum), ASCII content
-//@ timeout: 1500
-#[kani::proof]
-#[kani::stub(core::fmt::write, verif_fmt_ok)]
-fn c11_text_aligned_64_0() {
-    for len in [0, 1, 2, 3, 4, 5, 6, 7, 8, 9, 58, 59] {
-        check_aligned::<64>(len);
-    }
-}
-
-//@ id: text_aligned_64_1
-//@ prop: C11
-//@ functions: insim_core/src/string/mod.rs binrw_write_codepage_string::<64>
-//@ statement: variable-width message field of maximum 64 (aligned to 4), ASCII text of lengths [60, 61, 62, 63, 64, 65, 66, 67, 68, 69, 128, 129]: the field is the text (truncated to 64) NUL-padded to a multiple of 4, never longer than 64, with less than 4 bytes of padding
-//@ bounded: text lengths [60, 61, 62, 63, 64, 65, 66, 67, 68, 69, 128, 129] enumerated concretely (every residue mod 4 on both sides of the maximum), ASCII content
-//@ timeout: 1500
-#[kani::proof]
-#[kani::stub(core::fmt::write, verif_fmt_ok)]
-fn c11_text_aligned_64_1() {
-    for len in [60, 61, 62, 63, 64, 65, 66, 67, 68, 69, 128, 129] {
-        check_aligned::<64>(len);
-    }
-}
-
-//@ id: text_aligned_128_0
-//@ prop: C11
-//@ functions: insim_core/src/string/mod.rs binrw_write_codepage_string::<128>
-//@ statement: variable-width message field of maximum 128 (aligned to 4), ASCII text of lengths [0, 1, 2, 3, 4, 5, 6, 7, 8, 9, 122, 123]: the field is the text (truncated to 128) NUL-padded to a multiple of 4, never longer than 128, with less than 4 bytes of padding
-//@ bounded: text lengths [0, 1, 2, 3, 4, 5, 6, 7, 8, 9, 122, 123] enumerated concretely (every residue mod 4 on both sides of the maximum), ASCII content
-//@ timeout: 1500
-#[kani::proof]
-#[kani::stub(core::fmt::write, verif_fmt_ok)]
-fn c11_text_aligned_128_0() {
-    for len in [0, 1, 2, 3, 4, 5, 6, 7, 8, 9, 122, 123] {
-        check_aligned::<128>(len);
-    }
-}
-
-//@ id: text_aligned_128_1
-//@ prop: C11
-//@ functions: insim_core/src/string/mod.rs binrw_write_codepage_string::<128>
-//@ statement: variable-width message field of maximum 128 (aligned to 4), ASCII text of lengths [124, 125, 126, 127, 128, 129, 130, 131, 132, 133, 256, 257]: the field is the text (truncated to 128) NUL-padded to a multiple of 4, never longer than 128, with less than 4 bytes of padding
-//@ bounded: text lengths [124, 125, 126, 127, 128, 129, 130, 131, 132, 133, 256, 257] enumerated concretely (every residue mod 4 on both sides of the maximum), ASCII content
-//@ timeout: 1500
-#[kani::proof]
-#[kani::stub(core::fmt::write, verif_fmt_ok)]
-fn c11_text_aligned_128_1() {
-    for len in [124, 125, 126, 127, 128, 129, 130, 131, 132, 133, 256, 257] {
-        check_aligned::<128>(len);
-    }
-}
-
-//@ id: text_aligned_240_0
-//@ prop: C11
-//@ functions: insim_core/src/string/mod.rs binrw_write_codepage_string::<240>
-//@ statement: variable-width message field of maximum 240 (aligned to 4), ASCII text of lengths [0, 1, 2, 3, 4, 5, 6, 7, 8, 9, 234, 235]: the field is the text (truncated to 240) NUL-padded to a multiple of 4, never longer than 240, with less than 4 bytes of padding
-//@ bounded: text lengths [0, 1, 2, 3, 4, 5, 6, 7, 8, 9, 234, 235] enumerated concretely (every residue mod 4 on both sides of the maximum), ASCII content
-//@ timeout: 1500
-#[kani::proof]
-#[kani::stub(core::fmt::write, verif_fmt_ok)]
-fn c11_text_aligned_240_0() {
-    for len in [0, 1, 2, 3, 4, 5, 6, 7, 8, 9, 234, 235] {
-        check_aligned::<240>(len);
-    }
-}
-
-//@ id: text_aligned_240_1
-//@ prop: C11
-//@ functions: insim_core/src/string/mod.rs binrw_write_codepage_string::<240>
-//@ statement: variable-width message field of maximum 240 (aligned to 4), ASCII text of lengths [236, 237, 238, 239, 240, 241, 242, 243, 244, 245, 480, 481]: the field is the text (truncated to 240) NUL-padded to a multiple of 4, never longer than 240, with less than 4 bytes of padding
-//@ bounded: text lengths [236, 237, 238, 239, 240, 241, 242, 243, 244, 245, 480, 481] enumerated concretely (every residue mod 4 on both sides of the maximum), ASCII content
-//@ timeout: 1500
-#[kani::proof]
-#[kani::stub(core::fmt::write, verif_fmt_ok)]
-fn c11_text_aligned_240_1() {
-    for len in [236, 237, 238, 239, 240, 241, 242, 243, 244, 245, 480, 481] {
-        check_aligned::<240>(len);
+fn c11_text_fixed_32_t12() {
+    for len in [65] {
+        check_fixed::<32>(len, false);
     }
 }
 
 //@ id: terminated_mst_short
 //@ prop: C11
 //@ functions: insim_core/src/string/mod.rs binrw_write_codepage_string::<64>
-//@ statement: the text field of MST (width 64, fixed) ends in a NUL byte for ASCII text of lengths [0, 1, 2, 3, 5, 62, 63]
-//@ bounded: text lengths [0, 1, 2, 3, 5, 62, 63] enumerated concretely
-//@ timeout: 1500
+//@ statement: the text field of MST (width 64, fixed) ends in a NUL byte for ASCII text of lengths [0, 1, 2, 3]
+//@ bounded: text lengths [0, 1, 2, 3] enumerated concretely
+//@ timeout: 1200
 #[kani::proof]
 #[kani::stub(core::fmt::write, verif_fmt_ok)]
 fn c11_terminated_mst_short() {
-    for len in [0, 1, 2, 3, 5, 62, 63] {
+    for len in [0, 1, 2, 3] {
         check_terminated_fixed::<64>(len);
     }
 }
@@ -587,13 +902,13 @@ fn c11_terminated_mst_short() {
 //@ id: terminated_mst_full
 //@ prop: C11
 //@ functions: insim_core/src/string/mod.rs binrw_write_codepage_string::<64>
-//@ statement: the text field of MST (width 64, fixed) ends in a NUL byte for ASCII text of lengths [64, 65, 128] - the lengths that leave no room for a terminator
-//@ bounded: text lengths [64, 65, 128] enumerated concretely
-//@ timeout: 1500
+//@ statement: the text field of MST (width 64, fixed) ends in a NUL byte for ASCII text of lengths [64, 65] - the lengths that leave no room for a terminator
+//@ bounded: text lengths [64, 65] enumerated concretely
+//@ timeout: 1200
 #[kani::proof]
 #[kani::stub(core::fmt::write, verif_fmt_ok)]
 fn c11_terminated_mst_full() {
-    for len in [64, 65, 128] {
+    for len in [64, 65] {
         check_terminated_fixed::<64>(len);
     }
 }
@@ -601,27 +916,13 @@ fn c11_terminated_mst_full() {
 //@ id: terminated_msx_short
 //@ prop: C11
 //@ functions: insim_core/src/string/mod.rs binrw_write_codepage_string::<96>
-//@ statement: the text field of MSX (width 96, fixed) ends in a NUL byte for ASCII text of lengths [0, 1, 2, 3, 5, 94, 95]
-//@ bounded: text lengths [0, 1, 2, 3, 5, 94, 95] enumerated concretely
-//@ timeout: 1500
+//@ statement: the text field of MSX (width 96, fixed) ends in a NUL byte for ASCII text of lengths [0, 1, 2, 3]
+//@ bounded: text lengths [0, 1, 2, 3] enumerated concretely
+//@ timeout: 1200
 #[kani::proof]
 #[kani::stub(core::fmt::write, verif_fmt_ok)]
 fn c11_terminated_msx_short() {
-    for len in [0, 1, 2, 3, 5, 94, 95] {
-        check_terminated_fixed::<96>(len);
-    }
-}
-
-//@ id: terminated_msx_full
-//@ prop: C11
-//@ functions: insim_core/src/string/mod.rs binrw_write_codepage_string::<96>
-//@ statement: the text field of MSX (width 96, fixed) ends in a NUL byte for ASCII text of lengths [96, 97, 192] - the lengths that leave no room for a terminator
-//@ bounded: text lengths [96, 97, 192] enumerated concretely
-//@ timeout: 1500
-#[kani::proof]
-#[kani::stub(core::fmt::write, verif_fmt_ok)]
-fn c11_terminated_msx_full() {
-    for len in [96, 97, 192] {
+    for len in [0, 1, 2, 3] {
         check_terminated_fixed::<96>(len);
     }
 }
@@ -629,27 +930,13 @@ fn c11_terminated_msx_full() {
 //@ id: terminated_msl_short
 //@ prop: C11
 //@ functions: insim_core/src/string/mod.rs binrw_write_codepage_string::<128>
-//@ statement: the text field of MSL (width 128, fixed) ends in a NUL byte for ASCII text of lengths [0, 1, 2, 3, 5, 126, 127]
-//@ bounded: text lengths [0, 1, 2, 3, 5, 126, 127] enumerated concretely
-//@ timeout: 1500
+//@ statement: the text field of MSL (width 128, fixed) ends in a NUL byte for ASCII text of lengths [0, 1, 2, 3]
+//@ bounded: text lengths [0, 1, 2, 3] enumerated concretely
+//@ timeout: 1200
 #[kani::proof]
 #[kani::stub(core::fmt::write, verif_fmt_ok)]
 fn c11_terminated_msl_short() {
-    for len in [0, 1, 2, 3, 5, 126, 127] {
-        check_terminated_fixed::<128>(len);
-    }
-}
-
-//@ id: terminated_msl_full
-//@ prop: C11
-//@ functions: insim_core/src/string/mod.rs binrw_write_codepage_string::<128>
-//@ statement: the text field of MSL (width 128, fixed) ends in a NUL byte for ASCII text of lengths [128, 129, 256] - the lengths that leave no room for a terminator
-//@ bounded: text lengths [128, 129, 256] enumerated concretely
-//@ timeout: 1500
-#[kani::proof]
-#[kani::stub(core::fmt::write, verif_fmt_ok)]
-fn c11_terminated_msl_full() {
-    for len in [128, 129, 256] {
+    for len in [0, 1, 2, 3] {
         check_terminated_fixed::<128>(len);
     }
 }
@@ -657,13 +944,13 @@ fn c11_terminated_msl_full() {
 //@ id: terminated_mtc_short
 //@ prop: C11
 //@ functions: insim_core/src/string/mod.rs binrw_write_codepage_string::<128>
-//@ statement: the text field of MTC (width 128, aligned) ends in a NUL byte for ASCII text of lengths [0, 1, 2, 3, 5, 6, 7, 125, 126, 127]
-//@ bounded: text lengths [0, 1, 2, 3, 5, 6, 7, 125, 126, 127] enumerated concretely
-//@ timeout: 1500
+//@ statement: the text field of MTC (width 128, aligned) ends in a NUL byte for ASCII text of lengths [1, 2, 3, 5]
+//@ bounded: text lengths [1, 2, 3, 5] enumerated concretely
+//@ timeout: 1200
 #[kani::proof]
 #[kani::stub(core::fmt::write, verif_fmt_ok)]
 fn c11_terminated_mtc_short() {
-    for len in [0, 1, 2, 3, 5, 6, 7, 125, 126, 127] {
+    for len in [1, 2, 3, 5] {
         check_terminated_aligned::<128>(len);
     }
 }
@@ -671,13 +958,27 @@ fn c11_terminated_mtc_short() {
 //@ id: terminated_mtc_full
 //@ prop: C11
 //@ functions: insim_core/src/string/mod.rs binrw_write_codepage_string::<128>
-//@ statement: the text field of MTC (width 128, aligned) ends in a NUL byte for ASCII text of lengths [4, 8, 124, 128, 129] - the lengths that leave no room for a terminator
-//@ bounded: text lengths [4, 8, 124, 128, 129] enumerated concretely
-//@ timeout: 1500
+//@ statement: the text field of MTC (width 128, aligned) ends in a NUL byte for ASCII text of lengths [4, 8, 128] - the lengths that leave no room for a terminator
+//@ bounded: text lengths [4, 8, 128] enumerated concretely
+//@ timeout: 1200
 #[kani::proof]
 #[kani::stub(core::fmt::write, verif_fmt_ok)]
 fn c11_terminated_mtc_full() {
-    for len in [4, 8, 124, 128, 129] {
+    for len in [4, 8, 128] {
+        check_terminated_aligned::<128>(len);
+    }
+}
+
+//@ id: terminated_mtc_empty
+//@ prop: C11
+//@ functions: insim_core/src/string/mod.rs binrw_write_codepage_string::<128>
+//@ statement: the text field of MTC (width 128, aligned) ends in a NUL byte for ASCII text of lengths [0] - the lengths that leave no room for a terminator
+//@ bounded: text lengths [0] enumerated concretely
+//@ timeout: 1200
+#[kani::proof]
+#[kani::stub(core::fmt::write, verif_fmt_ok)]
+fn c11_terminated_mtc_empty() {
+    for len in [0] {
         check_terminated_aligned::<128>(len);
     }
 }
